@@ -3,8 +3,14 @@
 Proof step: coq/Props/C05.v (theorems over Model/C05.v for every algebra, every
 expression tree).
 
-Tie (K): random expression trees are built simultaneously as real QobjEvo
-objects and as terms `qx G2 Z` of the Coq model; `__call__`, `_call`,
+Tie (K): random and systematic expression trees - leaves: constant, pair
+with function / constant / sampled (InterCoefficient.restore, orders 0-3 on
+integer grids) coefficients and their sums (Coefficient.__add__, add_inter),
+products, conj, norm, operator-valued functions, with or without an argument
+`w`; operations incl. QobjEvo(a, args=..), a.arguments(..), a(t, w=..) - are
+built simultaneously as real QobjEvo objects and as terms `qx G2 ZT` of the Coq
+model; Coefficient.__add__ is also compared on its own (value and class of the
+result: fused InterCoefficient or SumCoefficient); `__call__`, `_call`,
 `matmul_data` (Dense and CSR state), `expect_data` (Dense and CSR state) and
 the element kinds (type names, stack lengths, conj flags, recursively) are
 compared exactly (Gaussian-integer entries, integer polynomials in t, integer
@@ -13,8 +19,7 @@ theorem so that the NumPy oracle below is itself tied to the statement proved.
 
 Oracle (always run): the same tree is evaluated pointwise with NumPy on the
 constituents' values; the real object must agree for __call__, matmul_data,
-expect_data, and - outside the modelled core - copy, pickle, argument
-replacement, division, tensor / superoperator lifts, ket states, Coefficient
+expect_data, and - outside the modelled core - copy, pickle, division, tensor / superoperator lifts, ket states, Coefficient
 algebra, and sampled (array) coefficients of orders 0-3 as leaves: their sums,
 products, conj, norm and the merging of terms that share an operator
 (compress / constructor / add_inter) for every relation between the two time
@@ -1156,7 +1161,7 @@ def lifts_case(ctx, x, y, t, where):
     X, Y = sem_np(x, tf), sem_np(y, tf)
     if minimal_failing(x, t) or minimal_failing(y, t):
         return 0          # reported elsewhere
-    a, b = build_impl(x), build_impl(y)
+    a, b = build_impl(x, False), build_impl(y, False)
     qa = qutip.Qobj(X, dims=[[2], [2]])
     qb = qutip.Qobj(Y, dims=[[2], [2]])
     checks = [
@@ -1197,7 +1202,7 @@ def lifts_case(ctx, x, y, t, where):
                     clean = False
                 if clean:
                     site, sig = SITE_MUL, SIG_MUL
-                a, b = build_impl(x), build_impl(y)
+                a, b = build_impl(x, False), build_impl(y, False)
             ctx.violation(site, sig, "%s over a QobjEvo differs from %s of its value: %s"
                           % (name, name, msg),
                           {"kind": "lift", "lift": name, "tree": x, "tree2": y, "t": t,
@@ -1262,7 +1267,7 @@ def malformed_case(ctx, x, t, which):
     """malformed operations raise (or return NotImplemented -> TypeError) and
     leave the operand's value unchanged"""
     import qutip
-    a = build_impl(x)
+    a = build_impl(x, False)
     tf = float(t)
     before = np.asarray(a(tf).full())
     q3 = qutip.Qobj(np.eye(3))
@@ -1537,7 +1542,8 @@ def run(ctx):
         "is non-trivial when the tree has depth >= 2; distinct by (tree, t, state)")
     ctx.cov["trusted_base"] += [
         "Model/C05.v is hand-written (mirrors _element.pyx, the QobjEvo algebra of "
-        "qobjevo.pyx and the Sum/Mul/Conj/Norm/Constant coefficient classes); tied to the "
+        "qobjevo.pyx incl. arguments(), replace_arguments of the five element classes, the "
+        "Function/Inter/Sum/Mul/Conj/Norm/Constant coefficient classes and add_inter); tied to the "
         "source by the exact correspondence run below, not verified against it",
         "Theorems hold for any structure Alg (commutative ring with additive involution, "
         "module with associative bilinear product, unit, linear trace, additive (anti)"
@@ -1547,7 +1553,14 @@ def run(ctx):
         "Qobj.__eq__ (tolerant isequal) used by compress is modelled as exact equality",
         "A map given to linear_map is additive and homogeneous (tr_ok), the documented "
         "contract of QobjEvo.linear_map; Qobj.to is the identity on values",
-        "Python callables at the leaves are pure functions of t (and of args)",
+        "Python callables at the leaves are pure functions of t and of their args; an args "
+        "dictionary is modelled up to the keys a function uses (restriction to _f_parameters "
+        "and the replace_arguments cache are not modelled: they do not change values)",
+        "TimeS: on the times in play add_inter's closeness test (rtol=1e-15, atol=0) is "
+        "equality (law tclose_sep, proved for integer ticks below 1e15); two distinct doubles "
+        "within 4 ulp of each other are outside the theorem (rounding level)",
+        "InterCoefficient's index search returns the interval of t for an increasing grid "
+        "(find_idx); construction of the polynomial pieces from samples (splines) is C06",
         "NumPy as the independent evaluator of the oracle (exact on the integer payloads)",
     ]
 
@@ -1820,7 +1833,7 @@ def run(ctx):
         "source by exact equality of __call__/_call/matmul_data/expect_data/element kinds on "
         "generated trees (vm_compute on the 2x2 Gaussian instance).  Independently the "
         "property itself is checked on the real objects against NumPy; operations outside "
-        "the modelled core (copy, pickle, argument replacement, division, tensor and "
+        "the modelled core (copy, pickle, division, tensor and "
         "superoperator lifts, ket states, Dia states, Coefficient algebra including sampled "
         "coefficients and add_inter, malformed operands) are covered by that oracle only and "
         "are exploration, not obligations; comparisons involving sampled coefficients of "
